@@ -233,11 +233,13 @@ class World:
                   lpar={k: v for k, v in lpar.items()})
 
     # ------------------------------------------------------------------ encoding of values
+    # user parameter values of the spec (small naturals) are realised as floats that differ only in the 6th digit
+    # (1 + 3e-6 v): an update must be taken over exactly, however small it is relative to the old value
     def enc(self, name, v):
-        return quanta(v) if name == LDT else int(round(v))
+        return quanta(v) if name == LDT else int(round((v - 1.0) / 3e-6))
 
     def dec(self, name, v):
-        return v / Q if name == LDT else float(v)
+        return v / Q if name == LDT else 1.0 + 3e-6 * float(v)
 
     def core_params(self):
         out = {}
